@@ -119,10 +119,50 @@ impl VotingBuilder {
         set
     }
 
+    // The ledger keeps the voters in a map ordered by its own `Ord` of `Voter`: committee
+    // members, then DReps, then pools, and inside a kind script credentials before key
+    // credentials, then the hash. Vote redeemers point into that order.
+    fn ledger_ordered(&self) -> Vec<(&Voter, &VoterVotes)> {
+        fn order_key(voter: &Voter) -> (u8, u8, Vec<u8>) {
+            let cred_key = |cred: Option<Credential>| match cred {
+                Some(cred) => match cred.to_scripthash() {
+                    Some(hash) => (0, hash.to_bytes()),
+                    None => (
+                        1,
+                        cred.to_keyhash().map(|h| h.to_bytes()).unwrap_or_default(),
+                    ),
+                },
+                None => (1, Vec::new()),
+            };
+            match voter.kind() {
+                VoterKind::ConstitutionalCommitteeHotKeyHash
+                | VoterKind::ConstitutionalCommitteeHotScriptHash => {
+                    let (kind, hash) = cred_key(voter.to_constitutional_committee_hot_credential());
+                    (0, kind, hash)
+                }
+                VoterKind::DRepKeyHash | VoterKind::DRepScriptHash => {
+                    let (kind, hash) = cred_key(voter.to_drep_credential());
+                    (1, kind, hash)
+                }
+                VoterKind::StakingPoolKeyHash => (
+                    2,
+                    1,
+                    voter
+                        .to_stake_pool_key_hash()
+                        .map(|h| h.to_bytes())
+                        .unwrap_or_default(),
+                ),
+            }
+        }
+        let mut ordered: Vec<_> = self.votes.iter().collect();
+        ordered.sort_by_key(|(voter, _)| order_key(voter));
+        ordered
+    }
+
     pub fn get_plutus_witnesses(&self) -> PlutusWitnesses {
         let tag = RedeemerTag::new_vote();
         let mut scripts = PlutusWitnesses::new();
-        for (i, (_, voter_votes)) in self.votes.iter().enumerate() {
+        for (i, (_, voter_votes)) in self.ledger_ordered().into_iter().enumerate() {
             if let Some(ScriptWitnessType::PlutusScriptWitness(s)) = &voter_votes.script_witness {
                 let index = BigNum::from(i);
                 scripts.add(&s.clone_with_redeemer_index_and_tag(&index, &tag));
